@@ -77,6 +77,15 @@ var immutablePointees = map[string]string{
 	"*CachedPubkey":                "a CachedPubkey is a shared object of its own (class CachedPubkey, own mutex)",
 }
 
+// standard-library functions that only READ the memory their arguments point to, during the call, and keep no reference:
+// passing guarded memory to them is a read under the lock, not an escape
+var pureFunctions = map[string]string{
+	"bytes.Compare": "lexicographic comparison of two byte slices", "bytes.Equal": "equality of two byte slices",
+	"bytes.HasPrefix": "prefix test", "bytes.HasSuffix": "suffix test", "bytes.Contains": "sub-slice test",
+	"bytes.Index": "sub-slice search", "bytes.IndexByte": "byte search",
+	"hex.EncodeToString": "returns a fresh string", "sha256.Sum256": "returns a fresh array",
+}
+
 // function-typed parameters that are called while the method runs (callbacks).  They are trusted not to call back
 // into the same object (documented contract); any other call of a function value is Unknown.
 var trustedCallbacks = map[string]string{
@@ -481,7 +490,7 @@ func main() {
 	js, _ := json.MarshalIndent(map[string]interface{}{
 		"repo": repoRoot, "classes": classes,
 		"tables": map[string]interface{}{"immutableFields": immutableFields, "immutablePointees": immutablePointees,
-			"trustedCallbacks": trustedCallbacks, "subObjects": subObjects, "externalRefTypes": externalRefTypes},
+			"trustedCallbacks": trustedCallbacks, "pureFunctions": pureFunctions, "subObjects": subObjects, "externalRefTypes": externalRefTypes},
 	}, "", " ")
 	if err := os.WriteFile(filepath.Join(*out, "GenLocks.json"), js, 0o644); err != nil {
 		fmt.Fprintln(os.Stderr, err)
